@@ -5,7 +5,7 @@
    "<property>/<element>/<clause>" used by the search oracle and by the
    known-findings classification. *)
 From Coq Require Import ZArith List Bool String.
-From PS.model Require Import Smt Enc Prog.
+From PS.model Require Import Smt Enc Ind Prog.
 Import ListNotations.
 Open Scope string_scope.
 Open Scope list_scope.
@@ -346,6 +346,32 @@ Definition wf_constraint (c : nat) (opt : bool) (e : rcexpr) : bool :=
      two busy intervals / tasks, duplicated windows, ...) *)
   && nodup_forms (enc_cons c opt e).
 
+(* indicators: the name must be free, tardiness-type indicators need a due date on every task they
+   look at, maxima / minima need a non-empty list, and no formula is appended twice to the indicator *)
+Definition wf_ind_expr (all : list tinfo) (e : riexpr) : bool :=
+  match e with
+  | ITardiness ts | IEarliness ts | INbTardy ts => forallb has_due (tasks_of all ts)
+  | IMaxLateness ts => forallb has_due (tasks_of all ts) && negb (is_nil (tasks_of all ts))
+  | IMinStart ts | IGreatestStart ts => negb (is_nil (tasks_of all ts))
+  | _ => true
+  end.
+Definition wf_indicator (st : pstate) (id : nat) (key : option string) (e : riexpr) : bool :=
+  negb (key_taken st key) && wf_ind_expr (ps_tasks st) e
+  && nodup_forms (enc_ind id (ps_horizon st) (ps_tasks st) e).
+Definition objective_name_taken (st : pstate) (n : string) : bool :=
+  existsb (fun r => String.eqb (o_name r) n) (x_objs (ps_ext st)).
+Definition wf_objective (st : pstate) (o : uoexpr) (ind : nat) : bool :=
+  match objective_name st o with
+  | None => true
+  | Some name =>
+      negb (objective_name_taken st name)
+      && match objective_indicator o with
+         | Some (key, _, ie) =>
+             match resolve_i st ie with Some re => wf_indicator st ind key re | None => true end
+         | None => true
+         end
+  end.
+
 Definition wf_op (st : pstate) (o : op) : bool :=
   match o with
   | ONewProblem h => match h with Some z => 1 <=? z | None => true end
@@ -367,4 +393,9 @@ Definition wf_op (st : pstate) (o : op) : bool :=
   | ONewConstraint id opt e =>
       absent (find_cons st id)
       && match resolve st e with Some re => wf_constraint id opt re | None => true end
+  | ONewBuffer id _ init final _ _ => absent (find_buf st id) && negb (absent init && absent final)
+  | ONewIndicator id e _ =>
+      absent (find_ind st id)
+      && match resolve_i st e with Some re => wf_indicator st id (Some (user_ind_name id)) re | None => true end
+  | ONewObjective o ind => wf_objective st o ind
   end.
